@@ -190,6 +190,9 @@ func (c *LocalReusableWorkflowCache) readCache(key string) (*ReusableWorkflowMet
 }
 
 func (c *LocalReusableWorkflowCache) writeCache(key string, val *ReusableWorkflowMetadata) {
+	if c.cache == nil {
+		return // Null cache created by newNullLocalReusableWorkflowCache never remembers anything
+	}
 	c.mu.Lock()
 	c.cache[key] = val
 	c.mu.Unlock()
